@@ -396,14 +396,16 @@ def run(ctx):
     ctx.guarded('C05-D3', 'package@flag', d3_flag, ctx)
     ctx.rule('C05-D4', 'samples are fluctuation + replica mean of the same object and chain')
     ctx.guarded('C05-D4', 'obs.py@samples', d4_samples, ctx)
-    from .. import unusedparams
-    ctx.rule('C05-D5', 'every accepted option is read (no silently ignored parameter)')
+    from .. import unusedparams, leakedloop
+    ctx.rule('C05-D5', 'every accepted option is read (no silently ignored parameter); no loop variable read after its loop')
     for mn_ in ('obs', 'correlators'):
         ctx.guarded('C05-D5', mn_ + '@parameters', unusedparams.check, ctx, 'C05-D5', ctx.repo.mod(mn_))
+        ctx.guarded('C05-D5', mn_ + '@loop-variables', leakedloop.check, ctx, 'C05-D5', ctx.repo.mod(mn_))
 
 
 
 SELFTEST = [
+    ('shape-check-dedented-out-of-loop', 'pyerrors/obs.py', "        if obs_a.shape[name] != obs_b.shape[name]:\n            raise ValueError('Shapes of ensemble', name, 'do not fit')\n        if obs_a.idl[name] != obs_b.idl[name]:\n            raise ValueError('idl of ensemble', name, 'do not fit')\n", "        if obs_a.idl[name] != obs_b.idl[name]:\n            raise ValueError('idl of ensemble', name, 'do not fit')\n    if obs_a.shape[name] != obs_b.shape[name]:\n        raise ValueError('Shapes of ensemble', name, 'do not fit')\n", 'C05-D5'),
     ('reweight-positional-slice', 'pyerrors/obs.py', "w_deltas[name] = _reduce_deltas(weight.deltas[name], weight.idl[name], obs[i].idl[name])", "w_deltas[name] = weight.deltas[name][:len(obs[i].deltas[name])]", 'C05-D1'),
     ('reweight-wrong-list', 'pyerrors/obs.py', "w_deltas[name] = _reduce_deltas(weight.deltas[name], weight.idl[name], obs[i].idl[name])", "w_deltas[name] = _reduce_deltas(weight.deltas[name], obs[i].idl[name], obs[i].idl[name])", 'C05-D1'),
     ('correlate-idl-check-removed', 'pyerrors/obs.py', "        if obs_a.idl[name] != obs_b.idl[name]:\n            raise ValueError('idl of ensemble', name, 'do not fit')\n", "", None),
